@@ -293,7 +293,7 @@ func ruleOpsCell(c *Ctx) []*Obligation {
 				if cell.setter != spec.setter {
 					bad = append(bad, fmt.Sprintf("result stored with SetAs%s, expected SetAs%s", cell.setter, spec.setter))
 				}
-				if cell.expr != spec.expr {
+				if cell.expr != spec.expr && !(cellAlt[name+"/"+t] != "" && cell.expr == cellAlt[name+"/"+t] && c.totalEquality()) {
 					bad = append(bad, fmt.Sprintf("cell computes %s, expected %s", cell.expr, spec.expr))
 				}
 			}
@@ -750,4 +750,52 @@ func rulePanicShift(c *Ctx) []*Obligation {
 		}
 	}
 	return o.list
+}
+
+// accepted alternative spellings of a cell: Object equality through the module's total equality helper
+var cellAlt = map[string]string{
+	"Equal/Object":    "equalPayloads(AsObject($1), AsObject(c2))",
+	"NotEqual/Object": "!equalPayloads(AsObject($1), AsObject(c2))",
+}
+
+// totalEquality: variants.equalPayloads(a, b) is == made total: its only comparison is a == b of its
+// two parameters, under a deferred handler that recovers into the named result (PANIC.recover shape).
+func (c *Ctx) totalEquality() bool {
+	fn := c.Func(pkgVariants, "", "equalPayloads")
+	if fn == nil || len(fn.Params) != 2 || !c.recoveredIntoNamedResult(fn) {
+		return false
+	}
+	n := 0
+	// a parameter, or a load of the cell a captured parameter was spilled into (stored once)
+	origin := func(v ssa.Value) ssa.Value {
+		if ld, ok := v.(*ssa.UnOp); ok && ld.Op == token.MUL {
+			if al, ok := ld.X.(*ssa.Alloc); ok {
+				var src ssa.Value
+				stores := 0
+				for _, r := range *al.Referrers() {
+					if st, ok := r.(*ssa.Store); ok && st.Addr == ssa.Value(al) {
+						stores++
+						src = st.Val
+					}
+				}
+				if stores == 1 {
+					return src
+				}
+			}
+		}
+		return v
+	}
+	for _, b := range fn.Blocks {
+		for _, in := range b.Instrs {
+			if bo, ok := in.(*ssa.BinOp); ok {
+				x, y := origin(bo.X), origin(bo.Y)
+				if bo.Op == token.EQL && ((x == ssa.Value(fn.Params[0]) && y == ssa.Value(fn.Params[1])) || (x == ssa.Value(fn.Params[1]) && y == ssa.Value(fn.Params[0]))) {
+					n++
+				} else {
+					return false
+				}
+			}
+		}
+	}
+	return n == 1
 }
